@@ -8,6 +8,7 @@ import (
 	"bytes"
 	"fmt"
 	"math"
+	"os"
 	"sort"
 	"strconv"
 	"strings"
@@ -22,6 +23,18 @@ import (
 )
 
 var id int
+
+var shard, nshards = 0, 1
+
+// mine reports whether the current case id belongs to this shard; generators always run (the PRNG
+// stream is the same in every shard), only the evaluation is divided.
+func mine() bool {
+	if id%nshards == shard {
+		return true
+	}
+	id++
+	return false
+}
 
 func canon(f float64) string {
 	if math.IsNaN(f) {
@@ -146,6 +159,9 @@ func tidyTags(u, tu string, f float64) string {
 }
 
 func tidyCase(v float64, u string) {
+	if !mine() {
+		return
+	}
 	defer func() {
 		if e := recover(); e != nil {
 			hx.Printf("case %d kind=tidy v=%s unit=%s iu=- iv=- tag=crash\n", id, hx.F64(v), hx.HexS(u))
@@ -227,6 +243,9 @@ func quoteOrNil(m *benchfmt.UnitMetadata) string {
 }
 
 func fileCase(lines []fileLine, queries []string, pats []string) {
+	if !mine() {
+		return
+	}
 	var text bytes.Buffer
 	var enc []string
 	written := map[string]bool{}
@@ -479,10 +498,19 @@ func genFile(r *hx.Rand) {
 func main() {
 	defer hx.Flush()
 	r := hx.NewRand(4)
+	if n, err := strconv.Atoi(os.Getenv("VERIF_NSHARDS")); err == nil && n > 0 {
+		nshards = n
+		shard, _ = strconv.Atoi(os.Getenv("VERIF_SHARD"))
+	}
 
 	// constants of tidy.go as observable behaviour (the model hard-codes them)
-	hx.Printf("case %d kind=consts tag=consts\n", id)
+	if shard == 0 {
+		hx.Printf("case %d kind=consts tag=consts\n", id)
+	}
 	func() {
+		if shard != 0 {
+			return
+		}
 		defer func() {
 			if e := recover(); e != nil {
 				hx.Printf("crash %d Tidy panicked: %v\n", id, e)
